@@ -1,4 +1,4 @@
-"""C14 -- rope's view of source text agrees with the tokenizer (RCA rules R14.1-R14.8)."""
+"""C14 -- rope's view of source text agrees with the tokenizer (RCA rules R14.1-R14.9)."""
 from __future__ import annotations
 
 import ast
@@ -18,7 +18,7 @@ EXPLANATION = (
     "of ) ] } as closing (sibling agreement with the tokenizer's paired delimiters).  R14.5: where a scanner captures the "
     "run of backslashes before a token, 'escaped' is decided by the parity of the run's length.  R14.6: the line tables "
     "and line splitters of the text scanners delimit lines by explicit '\\n', never by str.splitlines().  R14.7: a trailing backslash sets the continuation flag only under a test that the last token -- a "
-    "variable bound in that function -- is not '#'.  R14.8 (=R20.5): the word finder consults the hard-keyword oracle only.  Line-index inversion, the "
+    "variable bound in that function -- is not '#'.  R14.8 (=R20.5): the word finder consults the hard-keyword oracle only.  R14.9: the f-string test of real_code, folded over every tokenizer string prefix, keeps exactly the prefixes containing f/F.  Line-index inversion, the "
     "logical-line algorithm itself and the word/primary scanners are arithmetic over strings and are not decided."
 )
 ASSUMPTIONS = ["tokenize's own Comment pattern and _all_string_prefixes() are the oracle for the token language"]
@@ -268,6 +268,8 @@ def check(ctx, res) -> None:
                     "(`x = 1  # C:\\dir\\`) merges the next statement into the same logical line, unlike the tokenizer", function=f.qualname)
     res.floor("R14.7", "explicit-continuation decisions", n7, 1)
 
+    fstring_prefix_rule(ctx, res, "R14.9")
+
     # ---- R14.8 (=R20.5) the word finder knows hard keywords only
     from .common import hard_keyword_rule
 
@@ -324,3 +326,58 @@ def _top_groups(pat: str) -> List[str]:
                 out[starts.index(st)] = pat[st + 1:i]
         i += 1
     return [o or "" for o in out]
+
+
+def fstring_prefix_rule(ctx, res, rule: str) -> None:
+    """Shared by C14/C06 (signature changes find call sites on the simplified text)."""
+    from ..cfg import CFG
+
+    idx = ctx.idx
+    # ---- R14.9 strings are blanked in the simplified text EXCEPT f-strings (their {...} parts are code).  Which strings
+    # are f-strings is decided on the matched prefix; the decision must agree with the tokenizer's prefixes: every
+    # prefix that contains f/F (f, F, rf, fR, Rf, ...) keeps its text, every other prefix is blanked.
+    rcf = idx.need_func("rope.base.simplify.real_code")
+    keep_nodes = []
+    rcfg = CFG(rcf.node)
+    for nd in rcfg.nodes:
+        if nd.kind == "stmt" and isinstance(nd.ast, ast.Assign) and isinstance(nd.ast.value, ast.Constant) and nd.ast.value.value is None \
+                and any(pol and True for _, pol in rcfg.guards(nd.id)):
+            keep_nodes.append(nd)
+    if not keep_nodes:
+        raise AnalysisError("anchor=simplify.real_code: the 'keep this string' branch (replacement = None) not found")
+    folder9 = fold.get(ctx)
+    prefixes = sorted(tokenize._all_string_prefixes())
+    locals_in_order = [st for st in walk_local(rcf.node) if isinstance(st, ast.Assign) and isinstance(st.targets[0], ast.Name)]
+    for k, nd in enumerate(keep_nodes, 1):
+        wrong, unfolded = [], 0
+        for pfx in prefixes:
+            env = {"matchgroups": {"prefix": pfx}}
+            for st in locals_in_order:
+                try:
+                    env[st.targets[0].id] = folder9.eval(rcf.unit.modname, st.value, env=dict(env))
+                except fold.Unfoldable:
+                    pass
+            keep = True
+            decided = False
+            for t, pol in rcfg.guards(nd.id):
+                try:
+                    v = bool(folder9.eval(rcf.unit.modname, t, env=dict(env)))
+                except fold.Unfoldable:
+                    continue
+                decided = True
+                if v != pol:
+                    keep = False
+            if not decided:
+                unfolded += 1
+                continue
+            if keep != ("f" in pfx.lower()):
+                wrong.append(pfx)
+        if unfolded == len(prefixes):
+            res.undecided(rule, f"real_code|f-string-prefixes#{k}", f"{rcf.unit.rel}:{nd.lineno}", "the prefix test could not be folded")
+            continue
+        res.add(rule, f"real_code|f-string-prefixes#{k}", not wrong, f"{rcf.unit.rel}:{nd.lineno}",
+                f"all {len(prefixes)} tokenizer prefixes are classified correctly (text kept exactly for those containing f/F)" if not wrong else
+                f"real_code classifies the string prefixes {wrong} wrongly: a raw f-string such as rf\"...{{call(a, b)}}...\" is blanked like an ordinary "
+                "string, so code inside its braces is invisible to everything that works on the simplified text (a call there is not recognised as a call)",
+                function=rcf.qualname, wrong=wrong)
+
